@@ -104,13 +104,41 @@ def only_read(prog, m, name, class_level=False):
     return True
 
 
+def rng_aliases(prog):
+    """Names (module- or class-level) bound to the random / numpy.random modules themselves, package-wide:
+    `_rng = random` makes `self._rng.seed(...)` a call into the module."""
+    got = getattr(prog, "_rng_aliases", None)
+    if got is None:
+        got = {}
+        for m in prog.modules.values():
+            for n in ast.walk(m.tree):
+                if isinstance(n, (ast.Assign, ast.AnnAssign)) and n.value is not None and \
+                        isinstance(n.value, (ast.Name, ast.Attribute)):
+                    d = prog.dotted_of(m, n.value)
+                    if d is None and isinstance(n.value, ast.Name):
+                        r = prog.resolve_name(m, n.value.id)
+                        d = r[1] if r and r[0] == "ext" else None
+                    if d in ("random", "numpy.random"):
+                        for t in (n.targets if isinstance(n, ast.Assign) else [n.target]):
+                            name = t.id if isinstance(t, ast.Name) else (t.attr if isinstance(t, ast.Attribute) else None)
+                            if name:
+                                got[name] = d
+        prog._rng_aliases = got
+    return got
+
+
 def scan_module(prog, m):
     """Findings [(rule, line, func, construct, message)] and counts for one module."""
     out, counts = [], {"E1": 0, "E2": 0, "E4": 0}
+    aliases = rng_aliases(prog)
     # E1 / E2 on resolved call targets and name references
     for n in ast.walk(m.tree):
         if isinstance(n, ast.Call):
             d = prog.dotted_of(m, n.func) if isinstance(n.func, (ast.Attribute, ast.Name)) else None
+            if d is None and isinstance(n.func, ast.Attribute) and isinstance(n.func.value, (ast.Name, ast.Attribute)):
+                holder = n.func.value.id if isinstance(n.func.value, ast.Name) else n.func.value.attr
+                if holder in aliases:
+                    d = f"{aliases[holder]}.{n.func.attr}"      # a call through a name bound to the module
             if isinstance(n.func, ast.Name) and d is None:
                 r = prog.resolve_name(m, n.func.id)
                 if r and r[0] == "ext":
@@ -227,14 +255,26 @@ def check(run):
 
 def _seeds(run, prog):
     n = 0
+    summaries = []
     for m, c, name, fn in prog.all_functions():
         try:
-            s = ir.Summariser(prog, m, c, fn, owner=c).run()
+            summaries.append((m, c, name, fn, ir.Summariser(prog, m, c, fn, owner=c).run()))
         except ir.Unsupported:
             continue
+    # a construction is checked in the function that writes it; when the class (or the seed) only becomes known where
+    # that function is inlined into its caller -- a factory handed the class as an argument -- it is checked there
+    own = set()
+    for m, c, name, fn, s in summaries:
+        for ev, ctx in walk(s.events):
+            if not ctx.inl and isinstance(ev, ir.Call) and ev.method is None and ev.recv is None and "." in ev.callee and \
+                    not ev.callee.startswith(("self.", "local:", "ixai.", "?")):
+                own.add((ev.callee, ev.line))
+    for m, c, name, fn, s in summaries:
         opt = optional_params(fn)
         for ev, ctx in walk(s.events):
-            if ctx.inl or not isinstance(ev, ir.Call) or ev.method is not None or ev.recv is not None:
+            if not isinstance(ev, ir.Call) or ev.method is not None or ev.recv is not None:
+                continue
+            if ctx.inl and (ev.callee, ev.line) in own:
                 continue
             d = ev.callee
             if "." not in d or d.startswith(("self.", "local:", "ixai.", "?")):
